@@ -501,6 +501,8 @@ def materialize(engine: Engine, B: Builder, st: State, value, model, seen=None):
             o = I.hget(st, v)
             if isinstance(o, HInst):
                 return {"k": "inst", "id": v.oid, "cls": o.cls, "f": {a: go(x) for a, x in o.fields.items()}}
+            if getattr(o, "kind", "") == "set":
+                return {"k": "set", "v": [go(x) for x in o.items]}
             if isinstance(o, HList):
                 return {"k": "list", "id": v.oid, "v": [go(x) for x in o.items]}
             if isinstance(o, HDict):
